@@ -762,6 +762,16 @@ def o_shared(case):
         if tuple(a) != tuple(b):
             _bad("shared_key:not-symmetric", "%s/%s: %r != %r" % (c.name, cfg, tuple(a), tuple(b)))
         labels.append("cfg=" + cfg)
+        # the peer's key in the forms a caller may hold it in: a list, a Point object of this generator, and a Point object
+        # that belongs to ANOTHER curve over the same field which happens to pass through the same coordinates - the
+        # pair is what is agreed on, the arithmetic is the generator's
+        if Q2 is not None and case.get("forms"):
+            x, y = Q2
+            other = Curve(c.p, (c.a + 1) % c.p, (y * y - x * x * x - (c.a + 1) * x) % c.p)
+            for how, arg in (("list", [x, y]), ("own Point", g.Point(x, y)), ("Point of another curve through the same pair", other.Point(x, y))):
+                got = generate_shared_public_key(d1, arg, g)
+                expect(got, want, c, "shared_key:depends-on-the-form-of-the-public-pair", "%s/%s: shared(d1=%d, d2*G as %s)" % (c.name, cfg, d1, how))
+            labels.append("peer-key-forms")
     return labels
 
 
@@ -777,7 +787,7 @@ def s_shared():
         cfgs = ["shipped", "openssl"] + (["pure"] if pure else [])
         if cv == "bls":
             cfgs = ["shipped"]
-        return {"curve": cv, "d1": d1, "d2": d2, "cfgs": cfgs}
+        return {"curve": cv, "d1": d1, "d2": d2, "cfgs": cfgs, "forms": 1 if (d1 + d2) % 3 == 0 else 0}
     return st.sampled_from(["k1", "k1", "r1", "r1", "bls"]).flatmap(lambda cv: st.builds(
         mk, st.just(cv), ecgen.scalars(REF[cv].n), ecgen.scalars(REF[cv].n), st.sampled_from(["free", "free", "free", "same", "inverse", "negated"]),
         st.sampled_from([True, False, False, False])))
